@@ -10,12 +10,15 @@ Sym2 == -2..2
 Sym3 == -3..3
 Pos3 == -1..3
 Pos4 == -2..4
+(* loads whose ranges and extremes differ by one or two counts at 2^24: different numbers that agree in their first seven digits (far inside a relative
+   comparison tolerance such as numpy.isclose's 1e-5, far outside the detector's absolute 1e-12), at a magnitude where x - 1e-12 = x in double precision *)
+NearH == {-16777217, -16777216, 0, 3, 16777216, 16777218}
 VARIABLES s, out, per
 vars == <<s, out, per>>
 Scaled(q) == [i \in 1..Len(q) |-> Scale * q[i]]
 Alternates(f, v) == IF Len(f) = 0 THEN TRUE
                     ELSE IF Len(f) = 1 THEN v # f[1]
-                    ELSE (f[Len(f)] - f[Len(f) - 1]) * (v - f[Len(f)]) < 0
+                    ELSE Sgn(f[Len(f)] - f[Len(f) - 1]) * Sgn(v - f[Len(f)]) < 0
 Init == s = <<>> /\ out = H0 /\ per = <<>>
 Next == /\ Len(s) < MaxLen
         /\ \E v \in Vals : /\ OnlyReversals => Alternates(s, v)
